@@ -59,6 +59,7 @@ OnCall(m, e) ==
   [ FlagIf(m, m.call.op # "none", <<"harness", "call while another call is active">>)
     EXCEPT !.call = [op |-> e.op, cr |-> e.cr, tx |-> 0, hs |-> 0, resp |-> FALSE, txAfterResp |-> FALSE,
                      benign |-> quiet, awaiting |-> FALSE, genuine |-> FALSE, everConnected |-> m.cur # 0, cancelled |-> FALSE,
+                     lastk |-> 0,           \* key id under which the last data packet of this call was written
                      silent |-> TRUE,       \* nothing but silence from the network so far: no delivery, loss, close, refusal or cancellation
                      canSucceed |-> Ver = 2 \/ (e.op = "send" /\ m.stored = "good")
                                     \/ (e.op = "auth" /\ (e.cr = "good" \/ (e.cr = "cached" /\ m.stored = "good")))] ]
@@ -122,6 +123,7 @@ OnTx(m, e) ==
       call2 == IF m.call.op = "none" THEN m.call
                ELSE [m.call EXCEPT !.tx = IF isData THEN @ + 1 ELSE @, !.hs = IF isHS THEN @ + 1 ELSE @,
                                    !.awaiting = TRUE,
+                                   !.lastk = IF isData THEN e.k ELSE @,
                                    !.benign = @ /\ ValidReply(e.reply),
                                    !.silent = @ /\ e.reply = "none"]
   IN [ m EXCEPT !.bad = @ \cup b1 \cup b2 \cup b3 \cup b3b \cup b4 \cup b5 \cup b6 \cup b7 \cup b7b \cup b8 \cup b9 \cup b10 \cup b11 \cup b12 \cup b13 \cup b14 \cup b15,
@@ -134,7 +136,7 @@ OnDeliver(m, e) ==
   LET c == e.c
       cn == m.conns[c]
       awaited == e.live /\ m.call.op # "none" /\ m.call.awaiting /\ c = m.cur
-      isResp == awaited /\ m.call.op = "send" /\ e.gen /\ e.m \in {"ENC", "PKT"}
+      isResp == awaited /\ m.call.op = "send" /\ m.call.tx > 0 /\ e.gen /\ e.m \in {"ENC", "PKT"} /\ (Ver = 2 \/ e.k = m.call.lastk)
       genHS == e.m = "HSR" /\ e.gen
       inOrder == genHS /\ e.k = cn.latest
       cn2 == [cn EXCEPT !.hsok = @ \/ (genHS /\ e.live /\ awaited),
@@ -191,9 +193,11 @@ OnRet(m, e) ==
                THEN {<<"C08", "unanswered request did not end in a timeout after exactly `retries` transmissions">>} ELSE {}
       b12 == IF DevLevel /\ cl.op = "auth" /\ ~ok /\ e.r \notin {"auth", "cancelled"}
                THEN {<<"C06", "device-level authenticate failed with something other than an authentication error">>} ELSE {}
+      b14 == IF cl.op = "send" /\ cl.resp /\ e.r # "frames"
+               THEN {<<"C08", "a valid response arrived while the exchange was waiting for it, yet the exchange did not return it">>} ELSE {}
       b13 == IF cl.op = "auth" /\ cl.genuine /\ cl.canSucceed /\ e.r = "auth"
                THEN {<<"C06", "authentication failed although the device's reply proved knowledge of the key">>} ELSE {}
-  IN [ m EXCEPT !.bad = @ \cup b1 \cup b2 \cup b3 \cup b4 \cup b5 \cup b5b \cup b6 \cup b7 \cup b8 \cup b9 \cup b10 \cup b11 \cup b12 \cup b13,
+  IN [ m EXCEPT !.bad = @ \cup b1 \cup b2 \cup b3 \cup b4 \cup b5 \cup b5b \cup b6 \cup b7 \cup b8 \cup b9 \cup b10 \cup b11 \cup b12 \cup b13 \cup b14,
                 !.call = NoCall, !.stored = e.stored, !.prevFailed = ~ok,
                 !.conns = [c \in 1..Len(m.conns) |-> IF c = m.cur /\ e.r = "frames" THEN [m.conns[c] EXCEPT !.stray = 0] ELSE m.conns[c]] ]
 
